@@ -7,7 +7,7 @@ func init() {
 			"(A3) wire table: every surfaced field of Trip/TripID/StopTimeUpdate/StopTimeEvent/Vehicle/VehicleID/Position/Alert/AlertActivePeriod/AlertInformedEntity/AlertText is bound (backward provenance) to exactly the gtfs-realtime.proto field the reference names, through only the allowed transformers; the in-message flags are the documented literals; " +
 			"(ZONE) every time.Unix result is used only as the receiver of .In(opts.timezoneOrUTC()), every time.Date takes that zone, timezoneOrUTC is {Timezone set -> Timezone; else UTC}, no clock is read; " +
 			"(UNITS) start time is (3600h+60m+s) seconds from the three regexp groups, start date is midnight of (group1, group2, group3), delay is scaled by time.Second, direction is nil/0/else -> Unspecified/False/True, every *T -> *U converter maps nil to nil and present to present; " +
-			"(MERGE/GUARD/UNIQ, shared with C07/C04) one Trip per descriptor and one Vehicle per identifier, each entity parser yields a trip/vehicle whenever the wire carries one; (G7) no package-level state. " +
+			"(MERGE/GUARD/UNIQ, shared with C07/C04) one Trip per descriptor and one Vehicle per identifier, each entity parser yields a trip/vehicle whenever the wire carries one; whether an optional wire field is present is decided by its pointer, never by comparing its value with the zero value (an explicit zero is present); (G7) no package-level state. " +
 			"Not decided: numeric ranges, protobuf decoding, DST arithmetic of the time package.",
 		Rules: []Rule{
 			{Name: "SCAN", Doc: "a loop that does something for each element is not left early (no break out of a processing loop)", MinInstances: 1, Run: func(c *Ctx) { runFullScan(c, realtimeFns(c), "SCAN") }},
